@@ -390,6 +390,8 @@ impl Session {
         // processes the leading well-formed prefix of the stream.
         let mut cmd_iter = cmds.filter_map(Result::ok).peekable();
         let mut num_adrreq = 0;
+        // whether every ChMaskCntl of the current LinkADRReq block was understood
+        let mut cm_known = true;
         while let Some(cmd) = cmd_iter.next() {
             match cmd {
                 DevStatusReq(..) => {
@@ -425,12 +427,17 @@ impl Session {
                     // commands.
                     num_adrreq += 1;
 
-                    // TODO: Validate that input is not RFU
-                    let _ = region.channel_mask_update(
-                        &mut channel_mask,
-                        payload.redundancy().channel_mask_control(),
-                        payload.channel_mask(),
-                    );
+                    // An RFU ChMaskCntl makes the whole block invalid
+                    if region
+                        .channel_mask_update(
+                            &mut channel_mask,
+                            payload.redundancy().channel_mask_control(),
+                            payload.channel_mask(),
+                        )
+                        .is_none()
+                    {
+                        cm_known = false;
+                    }
 
                     // Check whether LinkADRReq commands continue...
                     if let Some(LinkADRReq(..)) = cmd_iter.peek() {
@@ -457,7 +464,7 @@ impl Session {
                         p => region.check_tx_power(p as u8),
                     };
 
-                    let cm_ack = region.channel_mask_validate(&channel_mask, dr);
+                    let cm_ack = cm_known && region.channel_mask_validate(&channel_mask, dr);
                     if cm_ack && let (Some(dr), Some(pw)) = (dr, pw) {
                         // TODO: handle nbtrans
                         configuration.data_rate = dr;
@@ -473,6 +480,10 @@ impl Session {
                         self.uplink.add_mac_command(cmd);
                     }
                     num_adrreq = 0;
+                    // A following block starts again from the mask in force, not from
+                    // what a rejected block had scribbled into the scratch copy
+                    cm_known = true;
+                    channel_mask = region.channel_mask_get();
                 }
                 LinkCheckAns(..) => {
                     /* TODO: Payload contents are not consumed/handled
